@@ -30,12 +30,12 @@ LEVEL_TEXT = ("Partial. Unbounded proof: for every byte string (and start positi
               "within (bytes left + 1) passes whatever counts the item announces; the map list of a DEX file as modelled "
               "(MapList.__init__ and MapItem.parse: the count and the items of the map, then per item its section from its own "
               "offset - string, type, proto and field id tables, string data items, code items with their try items and handler "
-              "lists, type lists, annotation set ref lists, annotation set items, annotations directories, in the load order "
+              "lists, encoded arrays and annotation items (the value reader of C04, nested to any depth), type lists, annotation set ref lists, annotation set items, annotations directories, in the load order "
               "of C07) ends on EVERY byte string and offset, a map that is read has at most one item per "
               "twelve bytes, and the model is compared with the real MapList on generated and damaged maps. Not proved: "
               "termination of the sections that are not modelled as part of that walk (method ids and class definitions - fixed "
-              "records read with look-ups in the other tables -, and class data, annotation items, encoded arrays, debug info and "
-              "hidden API data as sections of the map: their readers have the theorems above) and of the zip layer; they are run on "
+              "records read with look-ups in the other tables -, and class data, debug info and hidden API data as sections of "
+              "the map: their readers have the theorems above) and of the zip layer; they are run on "
               "mutated, truncated and crafted inputs under a time limit that grows with the input size (reference "
               "resolution in resource tables is C29).")
 LEVEL_NOTE = ("Trusted: Coq kernel; coq/Misc/TermModel.v as a rendering of ARSCHeader.__init__, DebugInfoItem.__init__ and "
@@ -361,7 +361,24 @@ STREAMS = [
 # ---- the map list and its sections (coq/Dex/MapWalkModel.v) against the real MapList / MapItem.parse --------------------------------
 # method ids are left out: MethodIdItem resolves its prototype while it is read and fails with AttributeError / KeyError on an index
 # the other tables do not cover (no loop is involved; the model has no cross references)
-MAP_KINDS = [0x0001, 0x0002, 0x0003, 0x0004, 0x1001, 0x1002, 0x1003, 0x2006, 0x1000, 0x2001, 0x2001, 0x2002, 0x2002, 0x0007, 0x0008]
+MAP_KINDS = [0x0001, 0x0002, 0x0003, 0x0004, 0x1001, 0x1002, 0x1003, 0x2006, 0x1000, 0x2001, 0x2001, 0x2002, 0x2002, 0x0007, 0x0008,
+             0x2004, 0x2004, 0x2005, 0x2005]
+
+
+def rand_value(rng, depth):
+    """an encoded_value"""
+    r = rng.random()
+    if depth > 0 and r < 0.15:
+        n = rng.randint(0, 3)
+        return bytes([0x1C]) + uleb(n) + b"".join(rand_value(rng, depth - 1) for _ in range(n))
+    if depth > 0 and r < 0.25:
+        n = rng.randint(0, 2)
+        return bytes([0x1D]) + uleb(rng.randrange(50)) + uleb(n) + b"".join(uleb(rng.randrange(50)) + rand_value(rng, depth - 1) for _ in range(n))
+    if r < 0.35:
+        return bytes([rng.choice((0x1E, 0x1F, 0x3F))])
+    ty = rng.choice((0x00, 0x02, 0x03, 0x04, 0x06, 0x10, 0x11, 0x17, 0x18, 0x19, 0x1A, 0x1B))
+    n = 1 if ty == 0 else rng.randint(1, {0x02: 2, 0x03: 2, 0x04: 4, 0x06: 8, 0x10: 4, 0x11: 8}.get(ty, 4))
+    return bytes([(n - 1) << 5 | ty]) + rb(rng, n)
 
 
 def gen_map(rng, tier, ctx):
@@ -392,6 +409,20 @@ def gen_map(rng, tier, ctx):
                     count = rng.randint(0, min(6, room // fixed[ty]))
                 elif ty in (0x1000, 7, 8):
                     count = 1
+                elif ty in (0x2004, 0x2005):            # annotation items, encoded arrays
+                    at, count = off, 0
+                    for _ in range(rng.randint(0, 3)):
+                        if ty == 0x2005:
+                            n = rng.randint(0, 3)
+                            item = uleb(n) + b"".join(rand_value(rng, 2) for _ in range(n))
+                        else:
+                            n = rng.randint(0, 2)
+                            item = bytes([rng.randrange(3)]) + uleb(rng.randrange(50)) + uleb(n) + b"".join(uleb(rng.randrange(50)) + rand_value(rng, 2) for _ in range(n))
+                        if at + len(item) > len(body):
+                            break
+                        body[at:at + len(item)] = item
+                        at += len(item)
+                        count += 1
                 elif ty == 0x2002:                      # string data items: length, bytes, NUL
                     at, count = off, 0
                     for _ in range(rng.randint(0, 4)):
@@ -446,6 +477,13 @@ def gen_map(rng, tier, ctx):
             items.append((ty, count, off))
         # type, proto and field ids look their strings and types up while they are read: the tables they need are in the map
         kinds = {t for t, _, _ in items}
+        if kinds & {0x2004, 0x2005}:
+            # encoded values of the string, type, field, method and enum kinds are resolved while they are read: all four id tables
+            # are in the map (the method ids as an empty table, see above)
+            if 4 not in kinds:
+                items.insert(rng.randrange(len(items) + 1), (4, rng.choice((0, 1)), rng.randrange(0, region + 1) & ~3))
+            items.insert(rng.randrange(len(items) + 1), (5, 0, rng.randrange(0, region + 1) & ~3))
+            kinds = {t for t, _, _ in items}
         if kinds & {2, 3, 4} and 1 not in kinds:
             items.insert(rng.randrange(len(items) + 1), (1, rng.choice((0, 1, 3)), rng.randrange(0, region + 1)))
         if kinds & {3, 4} and 2 not in kinds:
